@@ -17,6 +17,8 @@ EXPLANATION = (
     "host / --hostname / --tls-server-name and the skip flag from args.tls_skip_verify; (R5) hot swap: the reload "
     "function stores the new configuration on its success path and the listener takes a load_full() snapshot per "
     "accepted connection inside the accept loop.")
+EXPLANATION_ADDED = 'R3 also requires the client-certificate trust store to be loaded from client_ca_path; (R6) a failed reload keeps the previous configuration.'
+EXPLANATION = EXPLANATION + " Added while testing against seeded changes: " + EXPLANATION_ADDED
 ASSUMPTIONS = ["rustls / native-tls perform chain and name validation as documented for the configured verifier"]
 NOT_DECIDED = "rustls' own certificate validation; behaviour of established connections across a swap"
 QUICK_CONFIGS = ["default"]
